@@ -188,6 +188,13 @@ def main():
 def replay(path):
     rec = json.load(open(path))
     c = rec["case"]
+    if "x" in c:
+        from . import mix
+        case = mix.run_case({"id": c["id"], "x": c["x"]})
+        res, fails = mix.validate([case])
+        for f in fails:
+            print("FAIL", f)
+        return 1 if any(cl[0].startswith("C11.") or cl[0].startswith("MIX.") for f in fails for cl in f["clauses"]) else 0
     case = run_case({"id": c["id"], "l": c["l"], "variant": c["variant"]})
     res, fails = validate([case])
     for f in fails:
